@@ -96,15 +96,17 @@ PROPS = {
                 "no_collision (for all strings: keys of cached POSTs contain '/', `{id}` segments and ACTIVE_KEYSET do not); cache_hit_iff (served from the cache iff the "
                 "map holds method++url++body; then the stored bytes, 200, mint session untouched, an expired entry served once more and dropped); cache_provenance + "
                 "cache_exact (over every history from a fresh server: a NUT-19 entry exists only because an earlier request with the identical key was EXECUTED, answered "
-                "200 on /v1/swap or /v1/mint/bolt11, and holds that response's bytes; hence hit iff such a request exists and its entry is retained); key_eq_iff (identical "
-                "key = identical (method, URL, body) when the URLs have equal length, e.g. no query string); replay_identical (within TTL, over ANY intermediate history "
+                "200 on /v1/swap or /v1/mint/bolt11, and holds that response's bytes; hence hit iff such a request exists and its entry is retained); replay_identical (within TTL, over ANY intermediate history "
                 "without restart: identical bytes, nothing executed); stored_entry (TTL 300 s, body < 2 MB, map size <= 10000 at that moment; the map can hold limit+1); "
                 "beyond_retention_executes (key absent => the operation runs again on the current session: inputs spent / quote issued). "
                 "FALSE on the code as it is, each with a decide-checked witness, the exact partial theorem, and a reproduction against the real handler on every run: "
-                "refused_shape_full (a non-cashu error — MintTokens' failing 'restore previous state' write — is rendered {}), internal_generic_full (a failing quote "
+                "internal_generic_full (a failing quote "
                 "lookup is answered 'quote does not exist' 20009), code_of_cause_full (the same secret with another witness, or with a dleq object, is refused by the "
-                "storage key: 10000 instead of 11007), cache_exact_full (the key is a concatenation without separators: POST /v1/swap?x{A} with body `null` is served "
-                "the response of POST /v1/swap?x with body `{A}null`).",
+                "storage key: 10000 instead of 11007). "
+                "REPAIRED in /repo and followed by the model: the {} body of a refusal (MintTokens' failing 'restore previous state' write, fix 1c07e11; "
+                "refused_shape_full_false remains as a statement about the handler mapping only, latent) and the ambiguous cache key (fix 65f9524: NUL separators; "
+                "cache_exact_full, cache_exact_triple and key_eq_iff are now theorems: equal keys iff identical (method, URL, body) for requests without NUL in "
+                "method and URL); both former witnesses are regression examples in Props.C20 and regression cases in the stream's cause table.",
         "note": "Not modelled: /v1/ws (websocket upgrade), HTTP headers other than the request's Content-Type, percent-decoding of paths (the request carries the "
                 "decoded segments and URL.String() side by side; the harness takes both from net/http), the detail TEXT of generated messages (classes: bad-json, "
                 "invalid-type, bad-C-hex, …; literal for every constant of the source), concurrency (Cache.Get deletes under a read lock). The NUT error table in "
